@@ -136,7 +136,8 @@ WRITERS = {
 }
 
 
-def variants(stmts, limit=24):
+def variants(stmts, limit=None):
+  limit = limit or int(os.environ.get('VERIF_VARIANTS', '24'))      # thorough tier: 240
   n = len(stmts)
   out = []
   perms = list(itertools.permutations(range(n)))
